@@ -3,7 +3,7 @@ import Verif.Proofs.JsStringMain
 # C01E — string literal rewriting preserves the string value (growth item E of C01)
 
 Property theorems only.  Model: `Verif.Model.JsString` (behavioural model of `minifyString` and
-`replaceEscapes` in js/util.go as of /repo 6332c01); specification: `Verif.Spec.JsStringSem`
+`replaceEscapes` in js/util.go as of /repo 42d690f); specification: `Verif.Spec.JsStringSem`
 (`decodeLit strict s`: the ECMAScript string value of a `'…'`, `"…"` or substitution-free template literal
 as UTF-16 code units; `wfLit`: the literal is valid in the given mode).  Bytes are `Nat`s.
 `strict` is universally quantified everywhere: the statements hold for sloppy and for strict code.
